@@ -124,6 +124,271 @@ any sub-collection of the pool that, put in ascending order, is strictly separat
 def haplotypes (t : TxIn) (vs : List Var) : List (List Var) :=
   ((sublists (recordPool t vs)).map sortByStart).filter fun h => !h.isEmpty && separated h
 
+/-! ## a pruned enumerator for the compatible combinations, and the equation the compiler uses
+
+`haplotypes` above is the DEFINITION: all `2^n` sub-collections of the pool, each sorted by
+`start`, the non-empty strictly separated ones kept.  That is the clearest way to say "every
+compatible combination", and exponential in the pool size whatever the records look like: a
+splicing record with several nested records expands into ~20 mutually overlapping forms, of
+which only a few dozen combinations are compatible.
+
+`haplotypesFast` extends a sub-collection only by records compatible with everything already
+chosen (work proportional to the number of compatible sub-collections).  Proved below, for ALL
+record lists — no well-formedness hypothesis (ties in `start`, `stop < start`, duplicates) —
+
+* `separated_sort_eq_pairwiseOk` : `separated (sortByStart s) = pairwiseOk s`,
+* `filter_sublists_eq_pruned`    : `(sublists p).filter pairwiseOk = prunedSublists p`,
+* `haplotypes_eq_haplotypesFast` : `haplotypes t vs = haplotypesFast t vs` (same list, same order),
+
+and the last one is registered as a `@[csimp]` equation: every definition COMPILED after this
+point (`callVariant`, `callBackbone`, `callCirc`, `callCircMixed…`, `witnessCompletion` below,
+`Graph.allHaps`, the driver ops) evaluates `haplotypesFast` wherever the source says
+`haplotypes`, while every theorem keeps talking about the definition.  `csimp` acts when a
+caller is compiled, which is why this block sits HERE, in front of the callers, and not in a
+later file (measured: with the equation only imported into the driver the callers kept the
+exponential code).  Not an axiom, not `implemented_by`: a kernel-checked equality; what is
+trusted is that Lean's compiler honours `csimp`.  Core tactics only (this file is linked into
+the native driver). -/
+
+/-! ### the pruned enumerator -/
+
+/-- are `x` and `y` strictly separated once the collection is put in ascending order?  `x` is
+the record that comes EARLIER in the unsorted collection: the stable insertion sort
+`sortByStart` puts it in front of `y` exactly when `x.start ≤ y.start` (ties keep their order) -/
+def compatOrd (x y : Var) : Bool :=
+  if x.start ≤ y.start then decide (x.stop < y.start) else decide (y.stop < x.start)
+
+/-- every record is `compatOrd` with every later one -/
+def pairwiseOk : List Var → Bool
+  | [] => true
+  | x :: s => s.all (compatOrd x) && pairwiseOk s
+
+/-- the sub-collections of `p` (in the order of `sublists`) that are pairwise compatible:
+`x` is only put in front of those sub-collections of the rest it is compatible with -/
+def prunedSublists : List Var → List (List Var)
+  | [] => [[]]
+  | x :: xs =>
+    let r := prunedSublists xs
+    r ++ (r.filter fun s => s.all (compatOrd x)).map (x :: ·)
+
+/-- `haplotypes` without the exponential detour -/
+def haplotypesFast (t : TxIn) (vs : List Var) : List (List Var) :=
+  ((prunedSublists (recordPool t vs)).filter fun s => !s.isEmpty).map sortByStart
+
+/-! ### `sortByStart` -/
+
+theorem mem_insertByStart (x y : Var) : ∀ (l : List Var),
+    y ∈ insertByStart x l ↔ y = x ∨ y ∈ l := by
+  intro l
+  induction l with
+  | nil => simp [insertByStart]
+  | cons w ws ih =>
+    simp only [insertByStart]
+    split
+    · simp
+    · simp only [List.mem_cons, ih]
+      constructor
+      · rintro (h | h | h)
+        · exact Or.inr (Or.inl h)
+        · exact Or.inl h
+        · exact Or.inr (Or.inr h)
+      · rintro (h | h | h)
+        · exact Or.inr (Or.inl h)
+        · exact Or.inl h
+        · exact Or.inr (Or.inr h)
+
+theorem sortByStart_cons' (a : Var) (l : List Var) :
+    sortByStart (a :: l) = insertByStart a (sortByStart l) := rfl
+
+theorem mem_sortByStart' (y : Var) : ∀ (l : List Var), y ∈ sortByStart l ↔ y ∈ l := by
+  intro l
+  induction l with
+  | nil => simp [sortByStart]
+  | cons a l ih => rw [sortByStart_cons', mem_insertByStart, ih, List.mem_cons]
+
+/-- ascending in `start` (ties allowed) -/
+def Ascending (l : List Var) : Prop := l.Pairwise fun a b => a.start ≤ b.start
+
+/-- every earlier record ends before every later one starts -/
+def AllSeparated (l : List Var) : Prop := l.Pairwise fun a b => a.stop < b.start
+
+theorem insertByStart_ascending (x : Var) : ∀ (l : List Var),
+    Ascending l → Ascending (insertByStart x l) := by
+  intro l
+  induction l with
+  | nil => intro _; simp [insertByStart, Ascending]
+  | cons w ws ih =>
+    intro hs
+    obtain ⟨hw, hws⟩ := List.pairwise_cons.mp hs
+    simp only [insertByStart]
+    split
+    · rename_i hle
+      refine List.pairwise_cons.mpr ⟨?_, hs⟩
+      intro y hy
+      rcases List.mem_cons.mp hy with rfl | hy
+      · exact hle
+      · exact Nat.le_trans hle (hw y hy)
+    · rename_i hnle
+      refine List.pairwise_cons.mpr ⟨?_, ih hws⟩
+      intro y hy
+      rcases (mem_insertByStart x y ws).mp hy with rfl | hy
+      · omega
+      · exact hw y hy
+
+theorem sortByStart_ascending : ∀ (l : List Var), Ascending (sortByStart l) := by
+  intro l
+  induction l with
+  | nil => exact List.Pairwise.nil
+  | cons a l ih => rw [sortByStart_cons']; exact insertByStart_ascending a _ ih
+
+theorem sortByStart_isEmpty (s : List Var) : (sortByStart s).isEmpty = s.isEmpty := by
+  cases s with
+  | nil => rfl
+  | cons a l =>
+    rw [sortByStart_cons']
+    cases h : sortByStart l with
+    | nil => simp [insertByStart]
+    | cons w ws =>
+      simp only [insertByStart]
+      split <;> rfl
+
+/-! ### (a) adjacent-pair separation of the sorted list = pairwise compatibility -/
+
+/-- in an ASCENDING list the adjacent-pair test `separated` already says that every earlier
+record ends before every later one starts — whatever the records' own `stop` (also `stop <
+start`): `a.stop < b.start ≤ c.start` needs `b.start ≤ c.start`, not `b.start ≤ b.stop` -/
+theorem separated_iff_allSeparated : ∀ (l : List Var), Ascending l →
+    (separated l = true ↔ AllSeparated l) := by
+  intro l
+  induction l with
+  | nil => intro _; simp [separated, AllSeparated]
+  | cons a rest ih =>
+    intro hs
+    obtain ⟨_, hrest⟩ := List.pairwise_cons.mp hs
+    cases rest with
+    | nil => simp [separated, AllSeparated]
+    | cons b r =>
+      obtain ⟨hb, _⟩ := List.pairwise_cons.mp hrest
+      have ih' := ih hrest
+      simp only [separated, Bool.and_eq_true, decide_eq_true_eq, ih']
+      unfold AllSeparated
+      constructor
+      · rintro ⟨h1, h2⟩
+        refine List.pairwise_cons.mpr ⟨?_, h2⟩
+        intro y hy
+        rcases List.mem_cons.mp hy with rfl | hy
+        · exact h1
+        · have := hb y hy; omega
+      · intro h
+        obtain ⟨h1, h2⟩ := List.pairwise_cons.mp h
+        exact ⟨h1 b (by simp), h2⟩
+
+/-- inserting `x` into an ascending list keeps it all-separated iff the list was and `x` is
+`compatOrd` with each of its records -/
+theorem allSeparated_insert (x : Var) : ∀ (l : List Var), Ascending l →
+    (AllSeparated (insertByStart x l) ↔ (∀ y ∈ l, compatOrd x y = true) ∧ AllSeparated l) := by
+  intro l
+  induction l with
+  | nil => intro _; simp [insertByStart, AllSeparated]
+  | cons w ws ih =>
+    intro hs
+    obtain ⟨hw, hws⟩ := List.pairwise_cons.mp hs
+    have ih' := ih hws
+    simp only [insertByStart]
+    split
+    · rename_i hle
+      -- `x` goes in front: every record of the list starts at or behind `x.start`
+      have hc : ∀ y ∈ w :: ws, (compatOrd x y = true ↔ x.stop < y.start) := by
+        intro y hy
+        have : x.start ≤ y.start := by
+          rcases List.mem_cons.mp hy with rfl | hy
+          · exact hle
+          · exact Nat.le_trans hle (hw y hy)
+        simp [compatOrd, this]
+      unfold AllSeparated
+      rw [List.pairwise_cons]
+      constructor
+      · rintro ⟨h1, h2⟩
+        exact ⟨fun y hy => (hc y hy).mpr (h1 y hy), h2⟩
+      · rintro ⟨h1, h2⟩
+        exact ⟨fun y hy => (hc y hy).mp (h1 y hy), h2⟩
+    · rename_i hnle
+      -- `w` stays in front of `x`
+      have hcw : compatOrd x w = true ↔ w.stop < x.start := by simp [compatOrd, hnle]
+      unfold AllSeparated at ih' ⊢
+      rw [List.pairwise_cons, List.pairwise_cons, ih']
+      constructor
+      · rintro ⟨h1, h2, h3⟩
+        refine ⟨?_, ?_, h3⟩
+        · intro y hy
+          rcases List.mem_cons.mp hy with rfl | hy
+          · exact hcw.mpr (h1 x ((mem_insertByStart x x ws).mpr (Or.inl rfl)))
+          · exact h2 y hy
+        · intro y hy
+          exact h1 y ((mem_insertByStart x y ws).mpr (Or.inr hy))
+      · rintro ⟨h1, h2, h3⟩
+        refine ⟨?_, ?_, h3⟩
+        · intro y hy
+          rcases (mem_insertByStart x y ws).mp hy with rfl | hy
+          · exact hcw.mp (h1 w (by simp))
+          · exact h2 y hy
+        · intro y hy
+          exact h1 y (List.mem_cons_of_mem _ hy)
+
+/-- (a), as an equivalence -/
+theorem separated_sort_iff_pairwiseOk : ∀ (s : List Var),
+    separated (sortByStart s) = true ↔ pairwiseOk s = true := by
+  intro s
+  induction s with
+  | nil => simp [sortByStart, separated, pairwiseOk]
+  | cons x s ih =>
+    have hasc := sortByStart_ascending s
+    rw [sortByStart_cons',
+      separated_iff_allSeparated _ (insertByStart_ascending x _ hasc),
+      allSeparated_insert x _ hasc, ← separated_iff_allSeparated _ hasc, ih]
+    simp only [pairwiseOk, Bool.and_eq_true, List.all_eq_true, mem_sortByStart']
+
+/-- (a): putting `s` in ascending order gives a strictly separated list exactly when the
+records of `s` are pairwise `compatOrd` (earlier record first) — for EVERY list `s` -/
+theorem separated_sort_eq_pairwiseOk (s : List Var) :
+    separated (sortByStart s) = pairwiseOk s := by
+  rw [Bool.eq_iff_iff]
+  exact separated_sort_iff_pairwiseOk s
+
+/-! ### (b) the pruned enumerator is the filter of `sublists` -/
+
+/-- (b): same list, same order, for every pool -/
+theorem filter_sublists_eq_pruned : ∀ (p : List Var),
+    (sublists p).filter pairwiseOk = prunedSublists p := by
+  intro p
+  induction p with
+  | nil => rfl
+  | cons x xs ih =>
+    simp only [sublists, prunedSublists, List.filter_append, List.filter_map, ih]
+    congr 2
+    rw [← ih, List.filter_filter]
+    apply List.filter_congr
+    intro s _
+    simp [pairwiseOk]
+
+/-! ### (c) the definition equals the pruned enumerator -/
+
+/-- (c): same list, same order, for every transcript and every record list -/
+theorem haplotypes_eq_haplotypesFast (t : TxIn) (vs : List Var) :
+    haplotypes t vs = haplotypesFast t vs := by
+  simp only [haplotypes, haplotypesFast, List.filter_map]
+  congr 1
+  rw [← filter_sublists_eq_pruned, List.filter_filter]
+  apply List.filter_congr
+  intro s _
+  simp [sortByStart_isEmpty, separated_sort_eq_pairwiseOk]
+
+/-- compiled code evaluates `haplotypesFast` wherever a definition compiled from here on
+mentions `haplotypes` -/
+@[csimp] theorem haplotypes_eq_fast : @haplotypes = @haplotypesFast := by
+  funext t vs
+  exact haplotypes_eq_haplotypesFast t vs
+
 /-- the transcript sequence carrying haplotype `h` (ascending, separated) -/
 def applyHap (seq : List Char) (h : List Var) : List Char :=
   let rec go (pos : Nat) (rest : List Char) : List Var → List Char
